@@ -303,6 +303,8 @@ def run(ctx):
         return
     run_builder(ctx)
     run_misuse(ctx)
+    from .p_session import run_session_correspondence
+    run_session_correspondence(ctx, n=(400 if ctx.thorough else 60))   # the run-time theorem is about the session-core model
 
 def run_misuse(ctx):
     """The run-time half: misuse calls inserted at arbitrary points of valid runs must return the
